@@ -8,6 +8,7 @@ CONSTANTS
   FlushBounded = TRUE
   CommitGivesUp = TRUE
   SwallowCancel = TRUE
+  ConnLossAtClose = FALSE
 CONSTRAINT Rec
 POSTCONDITION Post
 CHECK_DEADLOCK FALSE
